@@ -247,22 +247,22 @@ def r_root_tiles(rule, root=None):
 def r_children(rule, path, label, dims, root=None):
     fn = worker_fn(path, "render_tile_recurse", root)
     t = txt(fn["body"])
-    if "ifletSome(next_tile_size)=self.tile_sizes.get((depth+1))" in t and "letn=(tile_size/next_tile_size);" in t and "lettile_size=self.tile_sizes[depth];" in t:
+    if "ifletSome(next_tile_size)=self.tile_sizes.get((depth+1))" in t and "lettile_size=self.tile_sizes[depth];" in t:
         rule.ok("%s: children per axis n = tile_size / next_tile_size at depth + 1" % label, file=path, line=fn["ln"])
     else:
         rule.bad("%s|children|n" % label, "%s: the child count must be tile_size / next_tile_size for the tile size at depth + 1" % label, A.where(fn))
-    calls = [c for c in A.find(fn["body"], "MethodCall") if c["method"] == "render_tile_recurse"]
+    # read with lets folded (a named offset / sub-tile is the same call) and with loops and iterator
+    # chains alike
+    body = A.inline_lets_deep(fn["body"])
+    calls = [c for c in A.find(body, "MethodCall") if c["method"] == "render_tile_recurse"]
     if len(calls) != 1:
         rule.lost("%s: the recursive call" % label)
         return
     c = calls[0]
-    loops = []
-    for l in A.find(fn["body"], "For"):
-        if any(n is c for n in A.walk(l["body"])):
-            loops.append(l)
-    names = [A.binding_name(l["pat"]) for l in loops]
-    iters = {A.binding_name(l["pat"]): txt(l["iter"]) for l in loops}
-    args = [txt(a) for a in c["args"]]
+    binders = A.enclosing_binders(body, c) or []
+    names = [b[0] for b in binders]
+    iters = {b[0]: str(b[1]) for b in binders}
+    args = [str(txt(a)) for a in c["args"]]
     vec = "Vector%d" % dims
     m = re.search(r"Tile::new\(\(tile\.corner\+\(%s::new\(([\w,]+)\)\*next_tile_size\)\)\)" % vec, args[2])
     if args[1] != "(depth+1)" or not m:
@@ -270,15 +270,16 @@ def r_children(rule, path, label, dims, root=None):
         return
     comps = m.group(1).split(",")
     ok = len(comps) == dims and sorted(comps) == sorted(names) and len(set(comps)) == dims
+    N = "(tile_size/next_tile_size)"  # `let n = tile_size / next_tile_size` folded
     for nme in comps[:2]:
-        if iters.get(nme) != "0..n":
+        if A.iter_source(iters.get(nme) or "") != "0..%s" % N:
             ok = False
-    if dims == 3 and iters.get(comps[2]) != "(0..n).rev()":
+    if dims == 3 and iters.get(comps[2]) != "(0..%s).rev()" % N:
         rule.bad("%s|children|zorder" % label, "%s: children along z must be visited from the top down (`(0..n).rev()`), found `%s`: early exit on filled pixels relies on it" % (label, iters.get(comps[2])), A.where(fn, c))
         ok = False
     if ok:
         rule.ok("%s: every child (each axis 0..n%s) is rendered once at its own corner" % (label, ", z descending" if dims == 3 else ""))
-    elif dims == 2 or iters.get(comps[2] if len(comps) > 2 else "") == "(0..n).rev()":
+    elif dims == 2 or iters.get(comps[2] if len(comps) > 2 else "") == "(0..%s).rev()" % N:
         rule.bad("%s|children|loops" % label, "%s: child loops %s do not cover each axis 0..n with its own index (corner uses %s)" % (label, iters, comps), A.where(fn, c))
 
 
@@ -387,29 +388,36 @@ def r_assembly_voxel(rule, root=None):
     fn = A.find_fn(VOX, "render", root=root)
     _assembly_common(rule, fn, "voxel", VOX, lambda left, y, x, W: left == "image[((%s*%s)+%s)]" % (y, W, x))
     t = txt(fn["body"])
-    # clamp consistency: compare with and assign the same quantity
-    ifs = [i for i in A.find(fn["body"], "If") if "GeometryPixel" in txt(i["then"]) and txt(A.strip(i["cond"]).get("left")) == "out[index].depth" and "image[" not in txt(i["cond"])]
-    if len(ifs) != 1:
+    # merge + clamp, read on the let-folded body as guarded writes to image[..] (one entry per value case, so
+    # `if c { image[o] = a } else { image[o] = b }` and `image[o] = if c { a } else { b }` are the same):
+    #   saturated: image[o] = GeometryPixel { depth: D, normal: [0, 0, 1] }  under  out[index].depth >= D, D = grid depth
+    #   otherwise: image[o] = out[index]                                     under !(out[index].depth >= D)
+    #   both only under out[index].depth >= image[o].depth
+    body = A.inline_lets_deep(fn["body"])
+    ws = A.guarded_writes(body, "image[")
+    D = "render_config.image_size.depth()"
+    sat = [w for w in ws if A.strip(w[1]).get("k") == "Struct" and (A.path_segs(A.strip(w[1])["path"]) or [None])[-1] == "GeometryPixel"]
+    plain = [w for w in ws if str(txt(w[1])) == "out[index]"]
+    if len(sat) != 1 or len(plain) != 1:
         rule.lost("the depth clamp in voxel::render")
         return
-    c = A.strip(ifs[0]["cond"])
-    st = [s for s in A.find(ifs[0]["then"], "Struct") if A.path_segs(s["path"])[-1] == "GeometryPixel"]
-    f = {x["name"]: txt(x["e"]) for x in st[0]["fields"]}
-    bound = txt(c["right"]) if c.get("k") == "Binary" else None
-    dlet = [s for s in A.find(fn["body"], "Let") if A.binding_name(s["pat"]) == bound]
-    dval = txt(dlet[0]["init"]) if dlet else bound
-    if c.get("k") == "Binary" and c["op"] == ">=" and txt(c["left"]) == "out[index].depth" and f.get("depth") == bound and dval == "render_config.image_size.depth()":
-        rule.ok("voxel merge: depths >= the grid depth are clamped to exactly the grid depth", file=VOX, line=ifs[0]["ln"])
+    left, val, conds, node = sat[0]
+    f = {x["name"]: str(txt(x["e"])) for x in A.strip(val)["fields"]}
+    cmp_ = [c for c in conds if c.startswith("(out[index].depth>=") and "image[" not in c]
+    bound = cmp_[-1][len("(out[index].depth>="):-1] if cmp_ else None
+    if cmp_ and bound == D and f.get("depth") == D and "!" + cmp_[-1] in plain[0][2]:
+        rule.ok("voxel merge: depths >= the grid depth are clamped to exactly the grid depth", file=VOX, line=node["ln"])
     else:
-        rule.bad("assembly|voxel|clamp", "the depth clamp compares `%s` with `%s` (= %s) but assigns `%s`; it must compare with and assign the grid depth, or columns one voxel short of the top are reported saturated" % (txt(c.get("left")), bound, dval, f.get("depth")), A.where(fn, ifs[0]))
+        rule.bad("assembly|voxel|clamp", "the depth clamp compares `out[index].depth` with `%s` but assigns `%s` (grid depth: %s); it must compare with and assign the grid depth, or columns one voxel short of the top are reported saturated" % (bound, f.get("depth"), D), A.where(fn, node))
     if f.get("normal") == "[0.0,0.0,1.0]":
         rule.ok("voxel merge: saturated pixels get the documented +Z normal")
     else:
-        rule.bad("assembly|voxel|normal", "saturated pixels must get normal [0, 0, 1]", A.where(fn, st[0]))
-    if "if(out[index].depth>=image[o].depth)" in t:
+        rule.bad("assembly|voxel|normal", "saturated pixels must get normal [0, 0, 1]", A.where(fn, node))
+    keep = "(out[index].depth>=%s.depth)" % left
+    if all(keep in w[2] for w in (sat[0], plain[0])):
         rule.ok("voxel merge keeps the greater depth")
     else:
-        rule.bad("assembly|voxel|max", "tile results must only replace shallower pixels", A.where(fn))
+        rule.bad("assembly|voxel|max", "tile results must only replace shallower pixels (`out[index].depth >= image[o].depth`)", A.where(fn))
 
 
 # ---------------------------------------------------------------------------
@@ -481,16 +489,21 @@ def r_samples_voxel(rule, root=None):
         ("y sample = corner.y + j", "*self.scratch.y.get_unchecked_mut(index)=((tile.corner[1]+j)asf32);"),
         ("z sample = corner.z + k", "*self.scratch.z.get_unchecked_mut(index)=((tile.corner[2]+k)asf32);"),
         ("columns already filled to the tile's top are skipped", "letzmax=(tile.corner[2]+tile_size).try_into().unwrap();if(self.out[o].depth>=zmax){continue;}"),
-        ("first negative sample in the (descending) column", "letk=matchdepth.iter().enumerate().find(|(_,d)|(**d<0.0)){Some((i,_))=>i,None=>continue,};"),
+        ("first negative sample in the (descending) column", [
+            "letk=match$C.iter().enumerate().find(|(_,$D)|(**$D<0.0)){Some(($I,_))=>$I,None=>continue,};",
+            "letSome(k)=$C.iter().position(|$D|(*$D<0.0))else{continue;};",
+            "letk=match$C.iter().position(|$D|(*$D<0.0)){Some($I)=>$I,None=>continue,};",
+        ]),
         ("index flipped back to an ascending voxel index", "letk=((tile_size-1)-k);"),
         ("depth = voxel index + 1", "letz=((tile.corner[2]+k)+1).try_into().unwrap();"),
-        ("one chunk of tile_size samples per column", "letmutdepth=out.chunks(tile_size);"),
+        ("one chunk of tile_size samples per column", ["letmut$C=out.chunks(tile_size);"]),
     ]
     for what, f in need:
-        if f in t:
+        alts = f if isinstance(f, list) else [f]
+        if any((x in t) if "$" not in x else (t.fmatch(x) is not None) for x in alts):
             rule.ok("voxel samples: %s" % what, file=VOX, line=fn["ln"])
         else:
-            rule.bad("samples|voxel|%s" % what[:28], "per-voxel evaluation: %s (`%s` not found)" % (what, f[:60]), A.where(fn))
+            rule.bad("samples|voxel|%s" % what[:28], "per-voxel evaluation: %s (`%s` not found)" % (what, alts[0][:60]), A.where(fn))
     # unsafe writes are dominated by the three length assertions against tile_size^3
     un = list(A.find(fn["body"], "Unsafe"))
     asserts = [m for m in A.find(fn["body"], "Macro") if m["name"] == "assert" and "tile_size.pow(3)" in txt(m)]
